@@ -62,7 +62,8 @@ def expected_v5_entries(case, p, fmtkey, entkey):
     for ent in p[entkey]:
         d = {}
         for (ct, form), v in zip(p[fmtkey], ent):
-            name = {1: 'DW_LNCT_path', 2: 'DW_LNCT_directory_index', 3: 'DW_LNCT_timestamp', 4: 'DW_LNCT_size', 5: 'DW_LNCT_MD5'}[ct]
+            name = {1: 'DW_LNCT_path', 2: 'DW_LNCT_directory_index', 3: 'DW_LNCT_timestamp', 4: 'DW_LNCT_size', 5: 'DW_LNCT_MD5',
+                    0x2001: 'DW_LNCT_LLVM_source', 0x2002: 'DW_LNCT_LLVM_is_MD5'}[ct]
             if form == 'DW_FORM_line_strp':
                 v = bytes(case['lstrs'][v])
             elif form == 'DW_FORM_strp':
@@ -161,6 +162,8 @@ def run_case(ctx, case):
         tag = 'v%d' % p['version']
         if cu['version'] != p['version']:
             ctx.count('unit.version-differs-from-table')
+        if p['version'] >= 5 and len({f for c_, f in p.get('file_format', []) if c_ in (1, 0x2001) and f != 'DW_FORM_string'}) >= 2:
+            ctx.count('v5.two-string-columns-of-different-forms')
         try:
             lp = di.line_program_for_CU(cu)
         except Exception as e:  # noqa
@@ -307,7 +310,9 @@ def _sequences(ops):
 
 V5_FORMS = {1: ['DW_FORM_string', 'DW_FORM_line_strp', 'DW_FORM_strp'], 2: ['DW_FORM_udata', 'DW_FORM_data1', 'DW_FORM_data2'],
             3: ['DW_FORM_udata', 'DW_FORM_data4', 'DW_FORM_data8', 'DW_FORM_block'], 4: ['DW_FORM_udata', 'DW_FORM_data1', 'DW_FORM_data2', 'DW_FORM_data4', 'DW_FORM_data8'],
-            5: ['DW_FORM_data16']}
+            5: ['DW_FORM_data16'],
+            # vendor content types the library names: a second string-valued column (its form is independent of the path's) and a flag
+            0x2001: ['DW_FORM_string', 'DW_FORM_line_strp', 'DW_FORM_strp'], 0x2002: ['DW_FORM_data1', 'DW_FORM_udata']}
 
 
 def v5_value(ch, case, form):
@@ -341,7 +346,7 @@ def build_prog(ch, tier, case, cell=None):
          'line_base': ch.choice([-5, -5, -3, -1, 0, 1, -128, 127, ch.int(-128, 127)]), 'line_range': ch.choice([14, 14, 12, 1, 2, 255, ch.int(1, 255)]),
          'opcode_base': opcode_base, 'std_lengths': std_lengths}
     if ver >= 5:
-        for fmtkey, entkey, cts in (('dir_format', 'dirs5', [1]), ('file_format', 'files5', [1, 2, 3, 4, 5])):
+        for fmtkey, entkey, cts in (('dir_format', 'dirs5', [1]), ('file_format', 'files5', [1, 2, 3, 4, 5, 0x2001, 0x2002])):
             use = [1] + [c for c in cts[1:] if ch.bool(0.5)]
             use = ch.perm(use) if ch.bool(0.3) else use
             formats = [[c, ch.choice(V5_FORMS[c] + (['DW_FORM_strp_sup', 'DW_FORM_GNU_strp_alt'] if c == 1 and case.get('sup_strs') else []))] for c in use]
@@ -478,7 +483,7 @@ def floors(ctx):
     for k in list(REF.STD) + ['sp', 'unk_std', 'unk_ext', 'define_file', 'set_discriminator', 'set_address', 'end_sequence']:
         if c['op.' + k] == 0:
             out.append('opcode never generated: ' + k)
-    for k in ('hdr.opcode_base<13', 'hdr.opcode_base>13', 'hdr.max_ops>1', 'unit.version-differs-from-table', 'sup.attached', 'far.programs'):
+    for k in ('hdr.opcode_base<13', 'hdr.opcode_base>13', 'hdr.max_ops>1', 'unit.version-differs-from-table', 'sup.attached', 'far.programs', 'v5.two-string-columns-of-different-forms'):
         if c[k] == 0:
             out.append('no program with ' + k)
     for ver in (2, 3, 4, 5):
